@@ -17,6 +17,7 @@ DEFAULT = dict(
     event_timeout=300.0, short_timeouts=None, p_stall=0.08, shuffle_order=True, rotate_p=0.0,
     own_bus_only=False, long_p=0.0, caller_idle_p=0.0, explicit_parent_p=0.0, redispatch_caller_p=0.0,
     results_p=0.0, p_await_any=0.0, p_stop_fault=0.0, p_late=0.0, p_raise_cancelled=0.0,
+    exc_kinds=['ValueError', 'KeyError', 'Boom', 'RuntimeError'], p_ret_container=0.0,
 )
 
 
@@ -144,7 +145,7 @@ def gen_bus(seed: int, knobs: dict, profile: str) -> dict:
                 p.append(['burn', r.choice([0.001, 0.05, 0.2])])
             elif k == 'p_raise':
                 if is_handler:
-                    p.append(['raise', r.choice(['ValueError', 'KeyError', 'Boom', 'RuntimeError'])])
+                    p.append(['raise', r.choice(K['exc_kinds'])])
                     break
             elif k == 'p_raise_cancelled':
                 # a handler that ends with CancelledError although nobody timed it out (it awaited a cancelled task)
@@ -184,6 +185,9 @@ def gen_bus(seed: int, knobs: dict, profile: str) -> dict:
                        'prog': prog(True, kind in ('sync', 'smethod', 'sstatic'), own=b)})
             if r.random() < K['p_late']:
                 hs[-1]['late'] = True
+            if r.random() < K['p_ret_container']:
+                hi_ = len(sc['handlers']) + len(hs)
+                hs[-1]['ret'] = r.choice([[hi_, hi_ + 100], {f'k{hi_}': hi_}, [f'x{hi_}']])
         r.shuffle(hs)
         sc['handlers'].extend(hs)
     for ci in range(r.choice(K['ncallers'])):
@@ -203,7 +207,7 @@ def gen_bus(seed: int, knobs: dict, profile: str) -> dict:
                 p.append(['wait_idle', r.choice(buses), None])
             if r.random() < K['results_p']:
                 p.append(['await', f'r{nvar}'])
-                p.append(['results', f'r{nvar}', r.choice(['event_result', 'event_results_list', 'event_results_by_handler_id', 'event_results_flat_dict']), r.random() < 0.5])
+                p.append(['results', f'r{nvar}', r.choice(['event_result', 'event_results_list', 'event_results_by_handler_id', 'event_results_flat_dict', 'event_results_flat_list', 'event_results_flat_list']), r.random() < 0.5])
         sc['callers'].append({'prog': p})
     late = [hi for hi, h in enumerate(sc['handlers']) if h.get('late')]
     for hi in late:
@@ -250,8 +254,9 @@ PROFILES = {
     'topo_redispatch': dict(nb=[2, 3, 4], fwd='topo', ncallers=[1, 2], p_dawait=0.2, p_redispatch=0.15, redispatch_caller_p=0.4),
     'late_reg': dict(nb=[1, 1, 2], p_late=0.5, p_wild=0.6, ntypes=[1, 2], ncallers=[1, 2], caller_len=[3, 4, 5], p_caller_await=0.7, p_caller_pause=0.2),
     'multi_stop': dict(nb=[3, 3, 4], p_stop_fault=1.0, ncallers=[2, 3], caller_len=[2, 3, 4], p_caller_await=0.3, p_pause=0.35, p_dispatch=0.3, p_dawait=0.2),
-    'errors': dict(nb=[1, 2, 3], p_raise=0.2, p_return_exc=0.1, results_p=0.4, fwd='some'),
-    'errors_parallel': dict(nb=[1, 1, 2], parallel_p=0.8, p_raise=0.25, p_return_exc=0.1, results_p=0.3, handlers_per_bus=[2, 3, 3], p_wild=0.5, p_pause=0.35),
+    'errors': dict(nb=[1, 2, 3], p_raise=0.2, p_return_exc=0.1, results_p=0.4, fwd='some', p_ret_container=0.4,
+                   exc_kinds=['ValueError', 'KeyError', 'Boom', 'RuntimeError', 'QueueShutDown', 'QueueFull', 'LoopClosed', 'TimeoutError', 'OSError']),
+    'errors_parallel': dict(exc_kinds=['ValueError', 'Boom', 'RuntimeError', 'QueueShutDown', 'QueueFull', 'LoopClosed'], nb=[1, 1, 2], parallel_p=0.8, p_raise=0.25, p_return_exc=0.1, results_p=0.3, handlers_per_bus=[2, 3, 3], p_wild=0.5, p_pause=0.35),
     'lineage': dict(nb=[1, 2, 3], parallel_p=0.4, p_readbus=0.2, explicit_parent_p=0.3, fwd='some', p_dispatch=0.35),
     'stalls': dict(nb=[1, 2, 3], p_stall=0.8, p_burn=0.1),
     'deep': dict(nb=[1, 2], max_depth=[3], p_dawait=0.4, p_wild=0.15, handlers_per_bus=[1, 2], prog_len=[0, 1, 1, 2], ncallers=[1, 1, 2], caller_len=[1, 2]),
